@@ -230,7 +230,9 @@ func joinOr(l []string) string {
 	return strings.Join(l, ",")
 }
 func sortNumHex(l []string) { // sort hex strings numerically (by length then lexicographic), on the first field
-	key := func(s string) string { return strings.FieldsFunc(s, func(r rune) bool { return r == '>' || r == '[' || r == '=' })[0] }
+	key := func(s string) string {
+		return strings.FieldsFunc(s, func(r rune) bool { return r == '>' || r == '[' || r == '=' })[0]
+	}
 	sort.Slice(l, func(i, j int) bool {
 		a, b := key(l[i]), key(l[j])
 		if len(a) != len(b) {
